@@ -120,7 +120,7 @@ theorem readCreate_generated_eq_model :
   decide +kernel
 
 /-- … stated for an arbitrary settings cell -/
-theorem readCreate_generated_eq_model' (cls : Nat) (hcls : cls ∈ strategyClasses) (w nan : Bool) (c : Cell) :
+theorem readCreate_generated_eq_model_cell (cls : Nat) (hcls : cls ∈ strategyClasses) (w nan : Bool) (c : Cell) :
     table.access cls w nan c = accessModel cls w nan c :=
   readCreate_generated_eq_model cls hcls w nan c (Cell.mem_all c)
 
